@@ -7,7 +7,8 @@ A case is a JSON-serialisable dict:
     bands                 None (mono-band) or a list of band names
     band                  the band named in the matching-cost configuration (None for mono-band)
     left_im, right_im     2-D list of ints (mono) or 3-D list [band][row][col]
-    left_msk, right_msk   None or 2-D list of ints (0 valid, 1 nodata, anything else invalid)
+    left_msk, right_msk   None or 2-D list of ints (0 valid, 1 nodata, anything else invalid — or the codes of
+                          left_conv / right_conv = [valid, no_data] when the case gives the image its own convention)
     disp                  {"kind": "scalar", "min": a, "max": b} | {"kind": "grid", "min": [[..]], "max": [[..]]}
                           (attached with the real img_tools.add_disparity: a [min, max] pair, or a 2-band grid file)
     right_disp            None (derived by the machine: [-max, -min]) or the same two forms
@@ -53,8 +54,9 @@ def make_dataset(case, side):
     disp = case["disp"] if side == "left" else case.get("right_disp")
     attrs = {
         "no_data_img": -9999,
-        "valid_pixels": VALID,
-        "no_data_mask": NODATA,
+        # each dataset carries its own mask convention (case["left_conv"] / case["right_conv"] = [valid, no_data])
+        "valid_pixels": int((case.get(f"{side}_conv") or (VALID, NODATA))[0]),
+        "no_data_mask": int((case.get(f"{side}_conv") or (VALID, NODATA))[1]),
         "crs": None,
         "transform": None,
         "disparity_source": None,
